@@ -432,7 +432,12 @@ where
         self.clear_tx.send(wg.add(1)).map_err(|e| {
             CacheError::SendError(format!("fail to send clear signal to working thread {}", e))
         })?;
-        wg.wait();
+
+        // Every signal queued before a close() began is honoured by the processor; one queued
+        // after that may never be looked at, so only wait in the former case.
+        if !self.is_closed.load(Ordering::SeqCst) {
+            wg.wait();
+        }
 
         Ok(())
     }
@@ -494,7 +499,13 @@ where
         let wait_item = Item::Wait(wg.add(1));
         self.insert_buf_tx
             .try_send(wait_item)
-            .map(|_| wg.wait())
+            .map(|_| {
+                // Every item buffered before a close() began is released by the processor; one
+                // buffered after that may never be looked at, so only wait in the former case.
+                if !self.is_closed.load(Ordering::SeqCst) {
+                    wg.wait()
+                }
+            })
             .map_err(|e| CacheError::SendError(format!("cache set buf sender: {}", e)))
     }
 
@@ -535,17 +546,18 @@ where
     /// `close` stops all threads and closes all channels.
     #[inline]
     pub fn close(&self) -> Result<(), CacheError> {
-        if self.is_closed.load(Ordering::SeqCst) {
+        // Closed from here on: concurrent callers return at once, and nobody starts waiting
+        // for work the processor will not look at any more.
+        if self.is_closed.swap(true, Ordering::SeqCst) {
             return Ok(());
         }
 
-        self.clear()?;
-        // Block until processItems thread is returned
+        // Block until the processItems thread has taken the signal. Before it returns it
+        // empties the cache and releases everything that is still buffered.
         self.stop_tx
             .send(())
             .map_err(|e| CacheError::SendError(format!("{}", e)))?;
         self.policy.close()?;
-        self.is_closed.store(true, Ordering::SeqCst);
         Ok(())
     }
 
@@ -657,10 +669,7 @@ where
                     }
                 },
                 recv(self.stop_rx) -> _ => {
-                    // nobody may be left waiting for a clear that will not happen
-                    while let Ok(wg) = self.clear_rx.try_recv() {
-                        wg.done();
-                    }
+                    self.handle_stop_event();
                     return Ok(());
                 },
             }
@@ -674,6 +683,15 @@ where
         self.store.clear();
         self.metrics.clear();
         res
+    }
+
+    /// Empties the cache and releases whoever still waits for buffered work.
+    #[inline]
+    pub(crate) fn handle_stop_event(&mut self) {
+        let _ = self.handle_clear_event();
+        while let Ok(wg) = self.clear_rx.try_recv() {
+            wg.done();
+        }
     }
 
     #[inline]
